@@ -538,8 +538,11 @@ static Function *find_module_function(Environment *env, const char *module_name,
     return NULL;
 }
 
-/* Load and parse a module file */
-static ASTNode *load_module_internal(const char *module_path, Environment *env, bool use_cache, ModuleList *modules_to_track) {
+/* Load and parse a module file.
+ * import_path is the path as written in the import statement (NULL if the
+ * module is not loaded for an import): introspection reports that one, so
+ * that it does not depend on the directory the compiler was started in. */
+static ASTNode *load_module_internal(const char *module_path, const char *import_path, Environment *env, bool use_cache, ModuleList *modules_to_track) {
     if (!module_path) return NULL;
     
     /* Check if module is already loaded (only if using cache) */
@@ -636,7 +639,7 @@ static ASTNode *load_module_internal(const char *module_path, Environment *env, 
     env->current_module = module_name;  /* Set module context for function tagging */
     
     /* Register module for introspection BEFORE type checking so functions can be tracked */
-    env_register_module(env, module_name, module_path, false);  /* is_unsafe will be updated later */
+    env_register_module(env, module_name, import_path ? import_path : module_path, false);  /* is_unsafe will be updated later */
     
     if (!type_check_module(module_ast, env)) {
         fprintf(stderr, "Error: Type checking failed for module '%s'\n", module_path);
@@ -764,7 +767,7 @@ static ASTNode *load_module_internal(const char *module_path, Environment *env, 
 
 /* Public wrapper for load_module that uses cache */
 ASTNode *load_module(const char *module_path, Environment *env) {
-    return load_module_internal(module_path, env, true, NULL);
+    return load_module_internal(module_path, NULL, env, true, NULL);
 }
 
 /* Load module from a package file */
@@ -888,7 +891,7 @@ bool process_imports(ASTNode *program, Environment *env, ModuleList *modules, co
                 fclose(test);
 
                 /* Load module and track transitive imports for compilation */
-                module_ast = load_module_internal(module_path, env, true, modules);
+                module_ast = load_module_internal(module_path, item->as.import_stmt.module_path, env, true, modules);
             }
             
             /* A loaded module is returned from the cache; NULL means the load failed
@@ -1121,7 +1124,7 @@ bool compile_module_to_object(const char *module_path, const char *output_obj, E
 
     /* Use a fresh module cache per module compilation to avoid cross-env AST reuse */
 
-    ASTNode *module_ast = load_module_internal(module_path, module_env, true, NULL);
+    ASTNode *module_ast = load_module_internal(module_path, NULL, module_env, true, NULL);
     if (!module_ast) {
         fprintf(stderr, "Error: Failed to load module '%s' for compilation\n", module_path);
         clear_module_cache();
